@@ -47,7 +47,7 @@ def saf_clause(cl, rng, n, replay):
             if j % 4 == 0:
                 data = rng.integers(-20000, 20000, size=(npts, 3))
             bad_count = (j % 11 == 10)
-            text = write_saf(rng, npts, fs, chans, north_rot, eol, data, header_npts=(npts + 1 if bad_count else None))
+            text = write_saf(rng, npts, fs, chans, north_rot, eol, data, header_npts=((npts + 1 if (j % 2 or npts < 4) else npts - 2) if bad_count else None))
             fn = os.path.join(d, f"f{j}.saf")
             with open(fn, "w", newline="") as f:
                 f.write(text)
@@ -179,7 +179,8 @@ def peer_clause(cl, rng, n, replay):
                 code = lay[k] if isinstance(lay[k], str) else str(lay[k])
                 fn = os.path.join(d, f"p{j}_{k}.vt2")
                 with open(fn, "w", newline="") as f:
-                    f.write(write_peer(lens[k], dt, code, samples[k], eol, header_npts=(lens[k] + 1 if bad and k == 1 else None)))
+                    # a header count that disagrees with the samples present, in either direction (one sample missing / two surplus samples)
+                    f.write(write_peer(lens[k], dt, code, samples[k], eol, header_npts=((lens[k] + 1 if ((j // 13) % 2 == 0 or lens[k] < 4) else lens[k] - 2) if bad and k == 1 else None)))
                 files.append(fn)
             order = PERMS[(j // len(layouts)) % 6]
             explicit = [None, 25.0, 0.0, 0][(j // 3) % 4]        # an explicit zero is an orientation like any other
@@ -248,7 +249,7 @@ def obspy_clause(cl, rng, n, replay):
             data = {c: rng.normal(0, 1000, npts).astype(np.float32 if j % 2 else np.float64) for c in chans}
             order = PERMS[j % 6]
             traces = [obspy.Trace(data=data[chans[o]].copy(), header=dict(channel=chans[o], station="ST", network="NW", sampling_rate=fs)) for o in order]
-            fmt = ["mseed1", "mseed3", "sac_little", "sac_big"][(j // 2) % 4]
+            fmt = ["mseed1", "mseed3", "sac_little", "sac_big", "sac_mixed"][(j // 2) % 5]       # sac_mixed: the three files differ in byte order
             explicit = [None, 40.0, 0.0][j % 3]
             try:
                 if fmt == "mseed1":
@@ -267,7 +268,7 @@ def obspy_clause(cl, rng, n, replay):
                         fn = os.path.join(d, f"s{j}_{k}.sac")
                         t2 = t.copy()
                         t2.data = t2.data.astype(np.float32)
-                        obspy.Stream([t2]).write(fn, format="SAC", byteorder=(0 if fmt == "sac_little" else 1))
+                        obspy.Stream([t2]).write(fn, format="SAC", byteorder=({"sac_little": 0, "sac_big": 1}.get(fmt, (j + k) % 2)))
                         src.append(fn)
                 r = hvsrpy.read_single(src, degrees_from_north=explicit)
             except Exception as ex:
